@@ -53,6 +53,8 @@ type Decl struct {
 	Name  string   `json:"name"`
 	Doc   []string `json:"doc,omitempty"`   // comment lines rendered right above the declaration (without the leading "// ")
 	Group int      `json:"group,omitempty"` // consecutive decls sharing a non-zero group are rendered inside one `type ( … )`
+	// GroupDoc: on the first decl of a group, comment lines rendered above the `type (` line
+	GroupDoc []string `json:"group_doc,omitempty"`
 
 	Fields []*Field `json:"fields,omitempty"` // struct, generic
 	Type   *TypeRef `json:"type,omitempty"`   // named, alias; enum: basic base type
@@ -352,6 +354,7 @@ func (s *Spec) RenderFile(p *Pkg, f *File) (string, error) {
 		d := decls[i]
 		if d.Group != 0 {
 			j := i
+			body.WriteString(docLines(d.GroupDoc, ""))
 			body.WriteString("type (\n")
 			for j < len(decls) && decls[j].Group == d.Group {
 				body.WriteString(docLines(decls[j].Doc, "\t"))
